@@ -44,10 +44,11 @@ class LegacyOKPort:
 class EchoPort:
     """EBB3 'future syntax' board: every reply starts with the request's name; queries carry a payload"""
 
-    def __init__(self, qe=(0, 0)):
+    def __init__(self, qe=(0, 0), delay=0):
         self.writes = []
         self.q = []
         self.qe = qe
+        self.delay = delay            # empty reads (timeouts) before every reply
 
     def payload(self, name, text):
         if name == "QE":
@@ -59,6 +60,7 @@ class EchoPort:
         self.writes.append(text)
         name = req_name(text)
         p = self.payload(name, text)
+        self.q.extend([""] * self.delay)
         self.q.append((name + ("," + p if p is not None else "")) + "\r\n")
         return len(data)
 
